@@ -618,6 +618,8 @@ pub fn gen_store(rng: &mut Rng, thorough: bool, out: &mut Vec<String>) {
         let mut in_txn = false;
         for _ in 0..n {
             let fail = if rng.chance(15, 100) { 1 } else { 0 };
+            // reads that the database rejects observe what is cached: not under memory pressure (see exec_l2 `st.reset`)
+            let rfail = if mode == "tiny" { 0 } else { fail };
             match rng.below(20) {
                 0 | 1 | 2 => out.push(format!("st.set {} {fail}", any_rec(rng, &plan))),
                 3 | 4 => {
@@ -625,11 +627,11 @@ pub fn gen_store(rng: &mut Rng, thorough: bool, out: &mut Vec<String>) {
                     let rs: Vec<String> = (0..k).map(|_| any_rec(rng, &plan)).collect();
                     out.push(format!("st.batchset {fail} {}", rs.join(" ")).trim_end().to_string());
                 }
-                5 | 6 | 7 => out.push(format!("st.get {} {fail}", any_key(rng))),
+                5 | 6 | 7 => out.push(format!("st.get {} {rfail}", any_key(rng))),
                 8 => {
                     let k = rng.range(0, 5);
                     let ks: Vec<String> = (0..k).map(|_| any_key(rng)).filter(|k| k != "azks").collect();
-                    out.push(format!("st.batchget {fail} {}", ks.join(" ")).trim_end().to_string());
+                    out.push(format!("st.batchget {rfail} {}", ks.join(" ")).trim_end().to_string());
                 }
                 9 => {
                     out.push("st.begin".into());
@@ -652,12 +654,12 @@ pub fn gen_store(rng: &mut Rng, thorough: bool, out: &mut Vec<String>) {
                     }
                 }
                 12 => out.push("st.sleep".into()),
-                13 | 14 => out.push(format!("st.userstate {} {} {fail}", rng.below(users + 1), flag(rng))),
-                15 | 16 => out.push(format!("st.userdata {} {fail}", rng.below(users + 1))),
+                13 | 14 => out.push(format!("st.userstate {} {} {rfail}", rng.below(users + 1), flag(rng))),
+                15 | 16 => out.push(format!("st.userdata {} {rfail}", rng.below(users + 1))),
                 17 | 18 => {
                     let k = rng.range(1, 4);
                     let us: Vec<String> = (0..k).map(|_| rng.below(users + 1).to_string()).collect();
-                    out.push(format!("st.userversions {} {fail} {}", flag(rng), us.join(" ")));
+                    out.push(format!("st.userversions {} {rfail} {}", flag(rng), us.join(" ")));
                 }
                 _ => {
                     if !in_txn {
